@@ -443,11 +443,55 @@ def work(chunk):
     return t
 
 
+def declared_enumerations(t):
+    """the enumeration converters the model classes actually carry (as declared, found through the class): every token of
+    the pinned tables is written and read back by them; two neighbouring tokens run together are refused"""
+    import json
+    import os
+
+    import ofxtools.models as M
+
+    snapshot("CURRENCY.cursym")
+    for key, toks in sorted(_SNAP.items()):
+        clsname, attr = key.split(".")
+        cls = getattr(M, clsname, None)
+        conv = None
+        for k in (cls.__mro__ if cls is not None else ()):
+            if attr in vars(k):
+                conv = vars(k)[attr]
+                break
+        if conv is None or not hasattr(conv, "convert"):
+            continue
+        t.count("evaluations")
+        bad = []
+        for tk in toks:
+            try:
+                if conv.convert(tk) != tk or conv.unconvert(tk) != tk:
+                    bad.append(tk)
+            except Exception:
+                bad.append(tk)
+        fused = []
+        for a, b in zip(toks, toks[1:]):
+            if (a + b) not in toks:
+                try:
+                    conv.convert(a + b)
+                    fused.append(a + b)
+                except Exception:
+                    pass
+        if bad:
+            t.fail("C10|declared-enumeration|token-of-the-pinned-table-refused", {"spec": ["declared", key]}, f"{key}: {bad[:5]}")
+        elif fused:
+            t.fail("C10|declared-enumeration|fused-tokens-accepted", {"spec": ["declared", key]}, f"{key}: {fused[:5]}")
+        else:
+            t.outcome("declared-enum-ok")
+
+
 def run(ctx):
     R.selfcheck()
     specs = all_specs()
     rot = ctx.seed % len(specs)
     tally = ctx.pmap(work, specs[rot:] + specs[:rot], chunk=1)
+    declared_enumerations(tally)
     if tally.counts.get("parameterisations") != len(specs):
         raise HarnessError("not every parameterisation ran")
     need = ["W-ok", "R-ok", "X-rejected", "N-required-refused", "N-optional-none", "L-nag-kept", "L-over-rejected"]
@@ -463,7 +507,7 @@ def run(ctx):
         "rule": f"{len(specs)} parameterisations (Bool; String/NagString length None,1,2,5; OneOf of 3 token sets and of the library's currency / language / country tables; Integer length None,1,2,3; Decimal scale "
         "None,0,1,2,4; DateTime; Time; each x required x bare/ListElement) x whole small domain: all strings of length <= limit+1 over {a,&,<,e-acute,inner blank}; "
         "all integers in (-10^n,10^n) and the first values beyond; all decimals m*10^-s |m|<=300 s<=4 with texts using . and , signs, leading zeros; "
-        "date-times/times over 6 zones x boundary values; entity texts; non-values; wrong Python types; None. Each (parameterisation, value/text, oracle) counted once",
+        "date-times/times over 6 zones x boundary values; entity texts; non-values; wrong Python types; None; + every enumeration converter declared by a model class against the pinned token tables. Each (parameterisation, value/text, oracle) counted once",
         "parameterisations": len(specs),
         "exhaustive": True,
         "distinct_outcomes": len(tally.outcomes),
@@ -477,6 +521,11 @@ def run(ctx):
 def replay(ctx, case):
     spec = tuple(tuple(x) if isinstance(x, list) else x for x in case["spec"])
     t = Tally()
+    if spec[0] == "declared":
+        declared_enumerations(t)
+        for sig, (n, c, d) in sorted(t.fails.items()):
+            print(" ", sig, "|", d)
+        return bool(t.fails)
     conv = mk(spec)
     rec = Rec(t, spec)
     none_rules(rec, conv)
